@@ -140,6 +140,9 @@ def doc_for(path, v):
 def main(tier, seed, replay=None):
     res = Result("C16", tier, seed)
     vlib.build_repo()
+    rep = vlib.translate()
+    r = rep.get("IntRender.v", {"ok": False, "error": "missing"})
+    res.oblige("translator: Gen/IntRender.v regenerated from current source", r.get("ok"), r.get("error", ""))
     coq_ok, out = vlib.standard_coq_obligations(res, TARGETS, THEOREMS, expect_closed=5)
     rng = random.Random(seed * 97 + 16)
     mem = members()
